@@ -46,10 +46,14 @@ def cases(seed, tier):
             spec["stall"] = [[a, round(a + rng.choice([0.1, 0.5]), 3)]]
         if rng.random() < 0.4:
             spec["async"] = {"get_index": rng.choice([0.0, 0.01, 0.07])}
+        if n == 1 and rng.random() < 0.4:
+            # a detector without get_index(): legal when collected alone (the collect then has to name the stream)
+            spec["kind"] = "lonestreamdet"
+            spec.pop("async", None)
         devices[f"sd{i}"] = spec
     devices["sigS"] = {"kind": "signal", "initial": 0}
     dets = [f"sd{i}" for i in range(n)]
-    named = n > 1 or rng.random() < 0.6
+    named = n > 1 or devices["sd0"]["kind"] == "lonestreamdet" or rng.random() < 0.6
     coll_kw = {"name": STREAM} if named else {}
 
     def collect():
